@@ -21,7 +21,7 @@ theorem step_ctx_mono {c : Cfg} {s s' : St} {e : Ev} (hs : step c s e = some s')
     · cases hs
   | ctxDone => simp only [step] at hs; split at hs <;> cases hs; exact h
   | «begin» i => simp only [step] at hs; split at hs <;> cases hs; exact h
-  | abort i => simp only [step] at hs; split at hs <;> cases hs; exact h
+  | abort i t => simp only [step] at hs; split at hs <;> cases hs; exact h
   | drain =>
     simp only [step] at hs
     by_cases hmm : s.main ≠ .running
